@@ -135,7 +135,10 @@ static void fgrow(struct efile *f, long need)
 
 int env_mkfile(const char *name, const char *data, int len, long mtime)
 {
-	int i = env_find(name);
+	int i;
+	if (strlen(name) >= ENV_NAMESZ)
+		return -1;
+	i = env_find(name);
 	if (i < 0)
 		for (i = 0; i < ENV_NFILES; i++)
 			if (!env_fs[i].name[0])
